@@ -88,3 +88,46 @@ Theorem C11_transit_no_app_logic :
     c_app A c' = c_app A c.
 Proof. exact transit_no_app_logic. Qed.
 Print Assumptions C11_transit_no_app_logic.
+
+(** a relayed transfer ends exactly like a direct one: the token modules never
+    look at the relay field of a packet (receive and acknowledgement callbacks
+    give the same state and the same acknowledgement for every value of it), and
+    what a transfer takes from the sender's ledger does not depend on the relay
+    chosen (the packets differ in the relay field only).  Together with
+    C11_transit_no_app_logic (the relay chain runs no application logic) the
+    token states of source and destination after send / recv@relay / recv@dest /
+    ack@relay / ack@source equal those after send / recv@dest / ack@source, for
+    success and error outcomes alike. *)
+From Tibc Require Import Apps.Path Apps.Nft Apps.Mt Apps.App Apps.RelayInvisible.
+
+Theorem C11_callbacks_ignore_relay :
+  forall Hh valid_addr nft_escrow mt_escrow dec_nft dec_mt (a : app_state) (p : packet) (r ack : bytes),
+    app_on_recv Hh valid_addr nft_escrow mt_escrow dec_nft dec_mt a (set_relay p r) =
+    app_on_recv Hh valid_addr nft_escrow mt_escrow dec_nft dec_mt a p /\
+    app_on_ack Hh valid_addr nft_escrow mt_escrow dec_nft dec_mt a (set_relay p r) ack =
+    app_on_ack Hh valid_addr nft_escrow mt_escrow dec_nft dec_mt a p ack.
+Proof.
+  intros. split; [apply on_recv_ignores_relay|apply on_ack_ignores_relay].
+Qed.
+Print Assumptions C11_callbacks_ignore_relay.
+
+Theorem C11_send_effect_independent_of_relay :
+  forall nft_escrow mt_escrow enc_nft enc_mt name seq class id sender receiver dest relay contract,
+    (forall st,
+      match nft_send nft_escrow enc_nft name seq st class id sender receiver dest relay contract,
+            nft_send nft_escrow enc_nft name seq st class id sender receiver dest [] contract with
+      | Some (st1, p1), Some (st2, p2) => st1 = st2 /\ p1 = set_relay p2 relay
+      | None, None => True
+      | _, _ => False
+      end) /\
+    (forall st amt,
+      match mt_send mt_escrow enc_mt name seq st class id sender receiver dest relay contract amt,
+            mt_send mt_escrow enc_mt name seq st class id sender receiver dest [] contract amt with
+      | Some (st1, p1), Some (st2, p2) => st1 = st2 /\ p1 = set_relay p2 relay
+      | None, None => True
+      | _, _ => False
+      end).
+Proof.
+  intros. split; intros; [apply nft_send_relay|apply mt_send_relay].
+Qed.
+Print Assumptions C11_send_effect_independent_of_relay.
